@@ -127,14 +127,16 @@ Example C20_example :
   /\ chk_C20 t0 w_legit (run PCode t0 w_legit) = true.
 Proof. exact w_legit_ok. Qed.
 
-(* growth that get_metrics does not report (model of the code only; not observable through the
-   public API, hence not covered by the monitor): after browse / stop_browse and an hour of
-   silence an instance whose SRV never came is still in pending_resolves, and a PTR owner that
-   was refused as "not for us" still has an (empty) bucket in the PTR map *)
+(* state that get_metrics does not report (model of the code only; not observable through the
+   public API, hence not covered by the monitor).  After browse / stop_browse: an instance whose
+   SRV never came waits in pending_resolves during its three follow-up queries and leaves it
+   when they are over (since the repair e9e74a6); a PTR owner that was refused as "not for us"
+   keeps an (empty) bucket in the PTR map for ever *)
 Example C20_hidden_growth_model :
-  map (map reported) (run PCode t0 w_hidden) = [[]; []; []; [[0; 0; 0; 0; 0; 0; 0]]]
-  /\ b_pending (state_after PCode (b_init t0) w_hidden)
-     = [[97; 108; 112; 104; 97; 46; 95; 104; 116; 116; 112; 46; 95; 116; 99; 112; 46; 108; 111; 99; 97; 108; 46]]
+  b_pending (state_after PCode (b_init t0) (firstn 4 w_hidden))
+  = [[97; 108; 112; 104; 97; 46; 95; 104; 116; 116; 112; 46; 95; 116; 99; 112; 46; 108; 111; 99; 97; 108; 46]]
+  /\ map (map reported) (run PCode t0 w_hidden) = [[]; []; []; []; []; []; []; [[0; 0; 0; 0; 0; 0; 0]]]
+  /\ b_pending (state_after PCode (b_init t0) w_hidden) = []
   /\ bc_ptr (b_cache (state_after PCode (b_init t0) w_hidden))
      = [([95; 102; 111; 114; 101; 105; 103; 110; 46; 95; 116; 99; 112; 46; 108; 111; 99; 97; 108; 46], [])].
 Proof. exact w_hidden_ok. Qed.
